@@ -774,11 +774,11 @@ theorem builtin_placeholders_in_scope (m : BuiltinMsg) (hm : m ∈ builtinMessag
     simp only [placeholders, hp] at hk'
     exact subset_mem hk k hk'
 
-theorem samePlaceholders_expands (s src : Str) (h : samePlaceholders s src = true)
+theorem formOK_expands (s src : Str) (may : List Str) (h : formOK s src may = true)
     (targets : List Target) (u : Option UTr)
-    (hd : ∀ k ∈ placeholders src, (rawLookup targets k).isSome = true) :
+    (hd : ∀ k ∈ may, (rawLookup targets k).isSome = true) :
     ∃ out, pyFormat s (fmLookup targets u) = .ok out := by
-  unfold samePlaceholders at h
+  unfold formOK at h
   cases hp : parseFmt s with
   | error r => rw [hp] at h; simp at h
   | ok a =>
@@ -786,14 +786,12 @@ theorem samePlaceholders_expands (s src : Str) (h : samePlaceholders s src = tru
     | error r => rw [hp, hq] at h; simp at h
     | ok b =>
       rw [hp, hq] at h
-      simp only [sameSet, Bool.and_eq_true] at h
-      refine ⟨_, expand_total s a targets u hp (fun k hk => hd k ?_)⟩
-      simp only [placeholders, hq]
-      exact subset_mem h.1 k hk
+      simp only [Bool.and_eq_true] at h
+      exact ⟨_, expand_total s a targets u hp (fun k hk => hd k (subset_mem h.2 k hk))⟩
 
 theorem entryFormsOK_get (e : PoEntry) (l : List Str) (j i : Nat) (s : Str)
     (h : entryFormsOK e j l = true) (hs : l[i]? = some s) :
-    samePlaceholders s (e.sourceForm (j + i)) = true := by
+    formOK s (e.sourceForm (j + i)) (e.mayKeys (j + i)) = true := by
   induction l generalizing j i with
   | nil => simp at hs
   | cons x xs ih =>
@@ -807,11 +805,13 @@ theorem entryFormsOK_get (e : PoEntry) (l : List Str) (j i : Nat) (s : Str)
       exact this
 
 /-- **catalogue_expand_total**: in every shipped catalogue, every msgstr[i] expands without
-    error wherever the source form it translates does (same placeholders), under any translator -/
+    error in any environment that resolves the keys it may use (those of the source form it
+    translates; for the singular msgstr of a plural entry also those of the plural source
+    form), under any translator -/
 theorem catalogue_expand_total (c : Catalogue) (hc : c ∈ catalogues) (e : PoEntry)
     (he : e ∈ c.entries) (i : Nat) (s : Str) (hs : e.msgstr[i]? = some s)
     (targets : List Target) (u : Option UTr)
-    (hd : ∀ k ∈ placeholders (e.sourceForm i), (rawLookup targets k).isSome = true) :
+    (hd : ∀ k ∈ e.mayKeys i, (rawLookup targets k).isSome = true) :
     ∃ out, pyFormat s (fmLookup targets u) = .ok out := by
   have h := catalogue_placeholders c hc
   unfold Catalogue.placeholdersOK at h
@@ -820,7 +820,7 @@ theorem catalogue_expand_total (c : Catalogue) (hc : c ∈ catalogues) (e : PoEn
   unfold PoEntry.placeholdersOK at h2
   have h3 := entryFormsOK_get e e.msgstr 0 i s h2 hs
   rw [Nat.zero_add] at h3
-  exact samePlaceholders_expands s _ h3 targets u hd
+  exact formOK_expands s _ _ h3 targets u hd
 
 theorem noEscape_segs (f : Str) (h : noEscape f = true) :
     ∃ segs, parseFmt f = .ok segs ∧ ∀ c, Seg.ch c ∈ segs → c ≠ '%' := by
@@ -836,14 +836,14 @@ theorem noEscape_segs (f : Str) (h : noEscape f = true) :
     simp at this
 
 /-- **catalogue_no_leftover** — the property's sentence, composed: every msgstr of every entry
-    of every shipped catalogue, in any environment that resolves the placeholders of the source
-    form it translates to values whose text carries no `%`, under any translator, expands
+    of every shipped catalogue, in any environment that resolves the keys it may use, *its own
+    placeholders* resolving to values whose text carries no `%`, under any translator, expands
     without error and the result contains no `%` at all (so no `%(` is left over) -/
 theorem catalogue_no_leftover (c : Catalogue) (hc : c ∈ catalogues) (e : PoEntry)
     (he : e ∈ c.entries) (i : Nat) (s : Str) (hs : e.msgstr[i]? = some s)
     (targets : List Target) (u : Option UTr)
-    (hd : ∀ k ∈ placeholders (e.sourceForm i), (rawLookup targets k).isSome = true)
-    (hval : ∀ k, '%' ∉ pyStr (trVal u ((rawLookup targets k).getD .none))) :
+    (hd : ∀ k ∈ e.mayKeys i, (rawLookup targets k).isSome = true)
+    (hval : ∀ k ∈ placeholders s, '%' ∉ pyStr (trVal u ((rawLookup targets k).getD .none))) :
     ∃ out, pyFormat s (fmLookup targets u) = .ok out ∧ '%' ∉ out := by
   obtain ⟨out, hout⟩ := catalogue_expand_total c hc e he i s hs targets u hd
   obtain ⟨segs, hp, _, hexp⟩ := pyFormat_ok_expansion s targets u out hout
@@ -858,13 +858,13 @@ theorem catalogue_no_leftover (c : Catalogue) (hc : c ∈ catalogues) (e : PoEnt
   cases hp'
   refine ⟨out, hout, ?_⟩
   rw [hexp]
-  exact no_percent_left _ segs hlit (fun k _ => hval k)
+  exact no_percent_left _ segs hlit (fun k hk => hval k (by simp only [placeholders, hp]; exact hk))
 
 /-- the same for the source-language templates themselves -/
 theorem builtin_no_leftover (m : BuiltinMsg) (hm : m ∈ builtinMessages) (f : Str)
     (hf : f ∈ m.forms) (targets : List Target) (u : Option UTr)
     (hd : ∀ k ∈ placeholders f, (rawLookup targets k).isSome = true)
-    (hval : ∀ k, '%' ∉ pyStr (trVal u ((rawLookup targets k).getD .none))) :
+    (hval : ∀ k ∈ placeholders f, '%' ∉ pyStr (trVal u ((rawLookup targets k).getD .none))) :
     ∃ out, pyFormat f (fmLookup targets u) = .ok out ∧ '%' ∉ out := by
   obtain ⟨out, hout⟩ := builtin_expand_total m hm f hf targets u hd
   obtain ⟨segs, hp, _, hexp⟩ := pyFormat_ok_expansion f targets u out hout
@@ -878,7 +878,7 @@ theorem builtin_no_leftover (m : BuiltinMsg) (hm : m ∈ builtinMessages) (f : S
   cases hp'
   refine ⟨out, hout, ?_⟩
   rw [hexp]
-  exact no_percent_left _ segs hlit (fun k _ => hval k)
+  exact no_percent_left _ segs hlit (fun k hk => hval k (by simp only [placeholders, hp]; exact hk))
 
 /-! ## 6. Plural forms of the shipped catalogues -/
 
